@@ -25,6 +25,8 @@ struct Outcome {
     int ticket_key = -1;                    // key id that minted the presented ticket (by key name)
     int ver = 0; int err_c = 0, err_s = 0;
     int key_id = -1; int rc = 0;            // rotate ops
+    bool after_fatal = false;               // an earlier operation of this thread had a fatal alert hit a session of the presented id
+    bool srv_alerted = false;               // fatalres: the server did send a fatal alert
 };
 
 struct Shared {
@@ -42,6 +44,8 @@ struct ThreadCtx {
     std::vector<Op> ops;
     std::vector<Outcome> out;
     uint64_t fp = 0;
+    std::vector<std::unique_ptr<TlsWorld>> held;   // connections this thread keeps open across later operations (several holders of one cache entry)
+    int fatal_since_full = 0;                      // a fatal alert hit a session of this thread's current id since its last full handshake
 };
 
 int key_id_of_name(const unsigned char *name) {
@@ -72,23 +76,47 @@ void run_conn(ThreadCtx &T, const Op &op, int opi) {
         else if (!tls13 && tickets && tLen >= 16) { int l = 0; unsigned char *t = vsim_sid_ticket((struct sslSessionId *) T.sid, &l); if (t && l >= 16) { o.mech = "ticket"; o.ticket_key = key_id_of_name(t); } }
         else if (!tls13 && idLen > 0) { o.mech = "id"; }
     }
+    bool hold = op.k == "hold", fatal = op.k == "fatalres";
+    if (op.k == "full") { T.fatal_since_full = 0; }
+    o.after_fatal = T.fatal_since_full > 0;
     o.inv = vs_event_seq();
-    TlsWorld w; w.adopt(T.sh->skeys, T.ckeys, T.sid, pc);
+    std::unique_ptr<TlsWorld> wp(new TlsWorld()); TlsWorld &w = *wp;
+    w.adopt(T.sh->skeys, T.ckeys, T.sid, pc);
+    bool armed = false;
+    if (fatal) { w.filter = [&armed](Record &r, std::vector<Bytes> &out) { Bytes b = r.raw; if (armed && r.dir == DIR_C2S && r.type == 23 && b.size() > 8) { b[b.size() - 3] ^= 0x10; armed = false; } out.push_back(b); }; }
     if (w.connect()) {
         o.ok = w.handshake();
         o.resumed_s = o.ok && w.srv->is_resumed(); o.resumed_c = o.ok && w.cli->is_resumed();
         o.err_c = w.cli->first_error; o.err_s = w.srv->first_error;
+        if (o.ok && !o.resumed_s) { T.fatal_since_full = 0; }     // a new session was established: the client now holds a fresh id
         if (o.ok) {
             Bytes a = tagged_payload(0, T.idx * 100 + opi, 60 + (size_t) T.idx), b = tagged_payload(1, T.idx * 100 + opi, 90 + (size_t) opi);
             w.cli->app_send(a.data(), a.size()); w.srv->app_send(b.data(), b.size()); w.pump();
             o.data_ok = w.srv->delivered.size() == 1 && w.srv->delivered[0] == a && w.cli->delivered.size() == 1 && w.cli->delivered[0] == b;
-            w.cli->app_close(); w.pump();
+            if (fatal) {
+                // a damaged record reaches the server: it answers with a fatal alert and (TLS <= 1.2) must invalidate the cached session
+                armed = true; Bytes x = tagged_payload(0, 7000 + T.idx * 100 + opi, 33); w.cli->app_send(x.data(), x.size()); w.pump();
+                o.srv_alerted = w.srv->got_error || w.srv->request_close; T.fatal_since_full++;
+            } else if (!hold) { w.cli->app_close(); w.pump(); }
         }
     }
     o.ret = vs_event_seq();
     T.fp = mix64(T.fp, mix64((uint64_t) o.ok * 8 + (uint64_t) o.resumed_s * 4 + (uint64_t) o.resumed_c * 2 + (uint64_t) o.data_ok, w.fingerprint()));
+    if (hold && o.ok) { w.filter = nullptr; T.held.push_back(std::move(wp)); T.out.push_back(o); return; }
+    w.filter = nullptr;
     w.close_sessions();
     w.teardown();
+    T.out.push_back(o);
+}
+
+void run_release(ThreadCtx &T, int opi) {
+    if (T.held.empty()) { return; }
+    Outcome o; o.thread = T.idx; o.opi = opi; o.kind = "release";
+    std::unique_ptr<TlsWorld> wp = std::move(T.held.front()); T.held.erase(T.held.begin());
+    o.inv = vs_event_seq();
+    if (wp->cli && wp->cli->alive()) { wp->cli->app_close(); wp->pump(); }
+    wp->close_sessions(); wp->teardown();
+    o.ret = vs_event_seq();
     T.out.push_back(o);
 }
 
@@ -129,11 +157,13 @@ void thread_main(int idx, void *arg) {
     (void) idx;
     for (size_t i = 0; i < T.ops.size(); i++) {
         const Op &op = T.ops[i];
-        if (op.k == "full" || op.k == "resume") { run_conn(T, op, (int) i); }
+        if (op.k == "full" || op.k == "resume" || op.k == "hold" || op.k == "fatalres") { run_conn(T, op, (int) i); }
+        else if (op.k == "release") { run_release(T, (int) i); }
         else if (op.k == "rotate") { run_rotate(T, op, (int) i); }
         else if ((op.k == "crl_add" || op.k == "crl_clear") && T.sh->crl_mode) { run_crl(T, op, (int) i); }
         vs_point(VS_K_YIELD);
     }
+    while (!T.held.empty()) { run_release(T, (int) T.ops.size()); vs_point(VS_K_YIELD); }
 }
 
 }  // namespace
@@ -157,8 +187,9 @@ static Plan c20_gen(uint64_t seed, int tier, uint64_t index) {
     bool crl = r.chance(1, 3);
     if (crl) { p.cfg["crl"] = 1; p.cfg["sid_kind"] = KK_RSA2048; }   // psX509AuthenticateCRL of this tree rejects every ECDSA-signed CRL (observation, DESIGN 16.8): RSA identities only      // the server application registers a session-ticket key callback
     int rotates = 0;
+    bool overlap = !crl && r.chance(1, 3);      // threads keep connections open across later operations and have fatal alerts hit sessions
     for (int t = 0; t < nt; t++) {
-        int nops = 2 + (int) r.below(3);
+        int nops = 2 + (int) r.below(overlap ? 5 : 3);
         int ver = (int) r.below(20); ver = ver < 10 ? 0 : ver < 17 ? 1 : 2;
         int tick = (int) r.below(2);
         int64_t suite_bit = (int64_t) r.below(2) * 2;     // fixed between a full handshake and its resumptions (a resumption must offer the original suite)
@@ -166,7 +197,8 @@ static Plan c20_gen(uint64_t seed, int tier, uint64_t index) {
             int64_t c = (int64_t) r.below(2) | suite_bit;
             if (i == 0) { p.ops.push_back(Op("full", t, ver, c, tick)); continue; }
             unsigned k = (unsigned) r.below(20);
-            if (k < 12) { p.ops.push_back(Op("resume", t, ver, c, tick)); }
+            if (overlap && k < 9) { static const char *OV[] = { "hold", "hold", "fatalres", "release" }; p.ops.push_back(Op(OV[r.below(4)], t, ver, c, tick)); }
+            else if (k < 12) { p.ops.push_back(Op("resume", t, ver, c, tick)); }
             else if (k < 16 || rotates >= 2) { if (r.chance(1, 2)) { ver = (int) r.below(3); tick = (int) r.below(2); suite_bit = (int64_t) r.below(2) * 2; c = (c & 1) | suite_bit; } p.ops.push_back(Op("full", t, ver, c, tick)); }
             else { rotates++; p.ops.push_back(Op("rotate", t, 0, (int64_t) r.below(3))); }
         }
@@ -194,6 +226,24 @@ static std::vector<Plan> c20_fixed(int tier) {
                     p.ops.push_back(Op("full", 1, vb, 1, 1)); p.ops.push_back(Op("resume", 1, vb, 1, 1)); p.ops.push_back(Op("rotate", 1, 0, 0));
                     v.push_back(p);
                 }
+            }
+        }
+    }
+    // several holders of one session-cache entry in one thread (original open, a resumption hit by a fatal alert, later release) while another
+    // thread registers and resumes sessions of its own: the cache entry bookkeeping (reference counts, free list) across threads
+    static const int DEN2[] = { 1, 2, 4, 8, 16 };
+    for (int ver : { 0, 2 }) {
+        for (int d = 0; d < 5; d++) {
+            for (int var = 0; var < (tier ? 6 : 3); var++) {
+                Plan p; p.seed = 201000 + (uint64_t) (ver * 100 + d * 10 + var);
+                p.cfg["threads"] = 2 + (var == 2); p.cfg["sid_kind"] = var & 1 ? KK_RSA2048 : KK_EC256; p.cfg["ckshare"] = var & 1; p.cfg["sden"] = DEN2[d]; p.cfg["kmask"] = d & 1 ? 0x11 : 0x1f;
+                p.ops.push_back(Op("full", 0, ver, 0, 0)); p.ops.push_back(Op("hold", 0, ver, 0, 0)); p.ops.push_back(Op("fatalres", 0, ver, 0, 0)); if (var >= 3) { p.ops.push_back(Op("resume", 0, ver, 0, 0)); } p.ops.push_back(Op("release", 0));
+                p.ops.push_back(Op("full", 0, ver, 0, 0)); p.ops.push_back(Op("resume", 0, ver, 0, 0));
+                for (int t = 1; t < 2 + (var == 2); t++) {
+                    p.ops.push_back(Op("full", t, ver, 0, 0)); p.ops.push_back(Op("resume", t, ver, 0, 0)); p.ops.push_back(Op("full", t, ver, 1, 0)); p.ops.push_back(Op("resume", t, ver, 1, 0));
+                    p.ops.push_back(Op("full", t, ver, 0, 0)); p.ops.push_back(Op("resume", t, ver, 0, 0)); p.ops.push_back(Op("resume", t, ver, 0, 0));
+                }
+                v.push_back(p);
             }
         }
     }
@@ -258,12 +308,13 @@ static RunResult c20_exec(const Plan &p) {
     if (!res.harness_error) {
         std::vector<Outcome> all; for (auto &t : T) { for (auto &o : t.out) { all.push_back(o); } }
         int conns = 0, overlaps = 0;
-        for (auto &o : all) { if (o.kind == "full" || o.kind == "resume") { conns++; } }
+        for (auto &o : all) { if (o.kind == "full" || o.kind == "resume" || o.kind == "hold" || o.kind == "fatalres") { conns++; } }
         for (size_t i = 0; i < all.size(); i++) { for (size_t j = i + 1; j < all.size(); j++) { if (all[i].thread != all[j].thread && all[i].inv < all[j].ret && all[j].inv < all[i].ret) { overlaps++; } } }
         static const char *VN[] = { "tls1.2", "tls1.3", "tls1.1" };
         for (auto &o : all) {
             if (res.violation) { break; }
-            if (o.kind != "full" && o.kind != "resume") { continue; }
+            if (o.kind != "full" && o.kind != "resume" && o.kind != "hold" && o.kind != "fatalres") { continue; }
+            bool is_res = o.kind != "full";
             std::string ctx = std::string(VN[o.ver]) + "," + o.kind + "," + o.mech;
             // CRL cache: is the revoking CRL in the table in some / every sequential order consistent with the history?
             bool revoke_possible = false, revoke_certain = false;
@@ -291,8 +342,8 @@ static RunResult c20_exec(const Plan &p) {
             if (o.resumed_s != o.resumed_c) { res.violate("endpoints_disagree_on_resumption", ctx, "T" + std::to_string(o.thread) + " op " + std::to_string(o.opi) + ": server resumed=" + std::to_string(o.resumed_s) + " client resumed=" + std::to_string(o.resumed_c)); break; }
             // which outcomes does some sequential order allow?
             bool may_resume = false, may_full = true;
-            if (o.kind == "resume" && o.mech == "id") { may_resume = true; may_full = conns > 30; }        // the cache (32 entries) cannot have evicted it
-            else if (o.kind == "resume" && (o.mech == "ticket" || o.mech == "psk13")) {
+            if (is_res && o.mech == "id") { may_resume = !o.after_fatal; may_full = conns > 30 || o.after_fatal; }        // the cache (32 entries) cannot have evicted it
+            else if (is_res && (o.mech == "ticket" || o.mech == "psk13")) {
                 // the key that minted the ticket: still loaded in every order / retired in every order / concurrent with the retirement
                 bool del_before = false, del_concurrent = false;
                 for (auto &d : all) {
